@@ -35,6 +35,18 @@
 (* member of the partition (invariant Agree); TraceContextHeaderTrace.tla  *)
 (* uses Parse to validate recorded real executions byte for byte.          *)
 (*                                                                         *)
+(* TAIL FAMILY (round 4): short / truncated / over-long header VALUES given *)
+(* as token sequences over a vocabulary in which every byte value has       *)
+(* exactly one token (TailTok): every PREFIX (length 0..full+2) of a        *)
+(* well-formed traceparent (version 00, a higher version without and with   *)
+(* trailing fields) with one of its last TailPos positions replaced by      *)
+(* every token, every token string of length <= ShortLen, and the same for  *)
+(* tracestate values next to a well-formed traceparent.  TailOutcome = the  *)
+(* token-level grammar (Parse) of exactly that value; for tracestate a      *)
+(* list of simple members must come back entry for entry, anything else is  *)
+(* left open - but never touches the decision about the traceparent.        *)
+(* Own initial predicate InitTail, own TLC config.                          *)
+(*                                                                         *)
 (* Dev: named deviations of the unchanged tree.  Dev = {} is the ideal.    *)
 (*   "traceflags-upper-hex-inject": flag bytes with a nibble >= 10 are     *)
 (*    written with upper-case digits ("-AB" instead of "-ab").             *)
@@ -47,7 +59,11 @@ CONSTANTS Dev,          \* set of deviation names in force
           NFlag,        \* flag bytes 0..NFlag-1 (256)
           RepFlags,     \* flag bytes that may be combined with up to MaxFaults mutations
           MaxFaults,    \* bound on mutated dimensions of a carrier
-          SweepFaults   \* bound on mutated dimensions for the other flag bytes
+          SweepFaults,  \* bound on mutated dimensions for the other flag bytes
+          TailBases,    \* tail family: well-formed forms whose prefixes are explored (subset of AllTailBases)
+          TailPos,      \* how many of the last positions of a prefix are replaced by every token (0..3)
+          ShortKinds,   \* header kinds ("tp", "ts") for which every short token string is explored
+          ShortLen      \* ... up to this length
 
 AllDevs == {"traceflags-upper-hex-inject"}
 DevF8   == "traceflags-upper-hex-inject"
@@ -57,8 +73,9 @@ VARIABLES phase,    \* "ctx" -> "injected" -> "done"   |   "carrier" -> "xdone"
           sc,       \* abstract span context (inject side)
           car,      \* abstract carrier
           res,      \* outcome of Extract
-          devUsed   \* ghost: deviations taken on the way
-vars == <<phase, sc, car, res, devUsed>>
+          devUsed,  \* ghost: deviations taken on the way
+          tl        \* the tail family: "tail" -> "tdone" (NoTail elsewhere)
+vars == <<phase, sc, car, res, devUsed, tl>>
 
 (* ---------------- abstract span contexts (inject side) ------------------ *)
 NoSC == [has |-> FALSE, tid |-> "zero", sid |-> "zero", fl |-> 0, ts |-> "none", remote |-> FALSE]
@@ -137,19 +154,20 @@ InjTokens(c, D) == LET tp == InjectTP(c, D)
 InjExp(c, D) == IF Valid(c) THEN [tp |-> InjTokens(c, D), ts |-> c.ts] ELSE [tp |-> <<>>, ts |-> "none"]
 
 (* ---------------- the state machine --------------------------------------- *)
-Init == /\ res = Rej /\ devUsed = {}
+NoTail == [h |-> "none", b |-> "none", cut |-> 0, pos |-> 0, tok |-> 0, v |-> <<>>]
+Init == /\ res = Rej /\ devUsed = {} /\ tl = NoTail
         /\ \/ phase = "ctx" /\ sc \in SCs /\ car = EmptyCar
            \/ phase = "carrier" /\ sc = NoSC /\ \E f \in FlagBytes : car = [tp |-> [DefTP EXCEPT !.fb = f], ts |-> "none"]
 
 Inject == /\ phase = "ctx" /\ phase' = "injected"
-          /\ UNCHANGED <<sc, res>>
+          /\ UNCHANGED <<sc, res, tl>>
           /\ \/ car' = InjectCar(sc, {}) /\ devUsed' = devUsed
              \/ /\ DevF8 \in Dev /\ Valid(sc) /\ HasLetter(sc.fl)
                 /\ car' = InjectCar(sc, {DevF8}) /\ devUsed' = devUsed \cup {DevF8}
 
 ExtractRT == /\ phase = "injected" /\ phase' = "done"
              /\ res' = Outcome(car)
-             /\ UNCHANGED <<sc, car, devUsed>>
+             /\ UNCHANGED <<sc, car, devUsed, tl>>
 
 \* the bound on mutated dimensions (the same bound is stated once more as CONSTRAINT Budget)
 Room == /\ Faults(car) < MaxFaults
@@ -157,7 +175,7 @@ Room == /\ Faults(car) < MaxFaults
 Mut(d) == /\ phase = "carrier" /\ Room
           /\ car.tp[d] = DefTP[d]
           /\ \E v \in Alt(d) : car' = [car EXCEPT !.tp[d] = v]
-          /\ UNCHANGED <<phase, sc, res, devUsed>>
+          /\ UNCHANGED <<phase, sc, res, devUsed, tl>>
 MutP     == Mut("p")
 MutLead  == Mut("lead")
 MutTrail == Mut("trail")
@@ -170,15 +188,13 @@ MutSt    == Mut("st")
 MutCs    == Mut("cs")
 MutTs    == /\ phase = "carrier" /\ Room /\ car.ts = "none"
             /\ \E v \in CarTs \ {"none"} : car' = [car EXCEPT !.ts = v]
-            /\ UNCHANGED <<phase, sc, res, devUsed>>
+            /\ UNCHANGED <<phase, sc, res, devUsed, tl>>
 
 Extract == /\ phase = "carrier" /\ phase' = "xdone"
            /\ res' = Outcome(car)
-           /\ UNCHANGED <<sc, car, devUsed>>
+           /\ UNCHANGED <<sc, car, devUsed, tl>>
 
-Next == \/ Inject \/ ExtractRT \/ Extract
-        \/ MutP \/ MutLead \/ MutTrail \/ MutVer \/ MutTid \/ MutSid \/ MutFl \/ MutTail \/ MutSt \/ MutCs \/ MutTs
-Spec == Init /\ [][Next]_vars
+\* (Next and Spec: below, behind the tail family, which needs the token-level grammar)
 
 \* CONSTRAINT: bound on the number of mutated dimensions
 InBudget == phase = "carrier" =>
@@ -213,7 +229,7 @@ InvalidNeverInstalled == (Done /\ res.o # "reject") =>
 OnlyShape == (Done /\ res.o # "reject") => ShapeOK(car.tp)
 WellFormedAccepted == (Done /\ WellFormed(car.tp)) => res.o = "accept" /\ res.flags = car.tp.fb /\ res.ts = car.ts
 Version00Exact == (Done /\ res.o # "reject" /\ car.tp.ver = "00") => car.tp.tail = "none"
-TypeOK == /\ phase \in {"ctx", "injected", "done", "carrier", "xdone"}
+TypeOK == /\ phase \in {"ctx", "injected", "done", "carrier", "xdone", "tail", "tdone"}
           /\ res.o \in {"accept", "either", "reject"} /\ res.flags \in FlagBytes
           /\ devUsed \subseteq Dev
 
@@ -297,6 +313,147 @@ Agree == (phase \in {"carrier", "injected"} /\ car.tp.p = "present" /\ InBudget)
               /\ r.o = o.o
               /\ r.o # "reject" => r.flags = o.flags
 
+(* ---------------- the tail family: short / truncated / over-long header values ---------- *)
+\* Every byte value has exactly one token of TailTok; the harness expands a token to ALL byte values of
+\* its class: hex digits (0..15 lower-case, 26..31 upper-case letters), '-', '=', ',': one byte each;
+\* Ows: SP HT; Ws2: CR LF VT FF; Lo: g..z; Up: G..Z; Oth: the other 185 byte values (NUL, >= 0x80 ...).
+\* For the traceparent grammar (Parse) Eq, Comma, Lo, Up are just bytes that are neither hex digit, nor
+\* '-', nor white space - like Oth.
+Eq    == 44
+Comma == 45
+Lo    == 46
+Up    == 47
+TailTok == (0..15) \cup (26..31) \cup {Dash, Ows, Ws2, Oth, Eq, Comma, Lo, Up}
+ASSUME PrintT(<<"TAILTOK", ToJson(TailTok)>>)
+AllTailBases == {"v00", "hi", "hiext", "ts3", "tsws"}
+HdrOf(b) == IF b \in {"ts3", "tsws"} THEN "ts" ELSE "tp"
+\* the ids / flags byte of the well-formed forms that are truncated
+TFieldT == [i \in 1..32 |-> (i * 7) % 16]
+TFieldS == [i \in 1..16 |-> (i * 5 + 3) % 16]
+TFlags  == 171
+TpForm(ver) == ver \o <<Dash>> \o TFieldT \o <<Dash>> \o TFieldS \o <<Dash, TFlags \div 16, TFlags % 16>>
+TBase(b) == CASE b = "v00"   -> TpForm(<<0, 0>>)                                   \* 00-tid-sid-ab
+              [] b = "hi"    -> TpForm(<<0, 11>>)                                  \* 0b-tid-sid-ab
+              [] b = "hiext" -> TpForm(<<12, 3>>) \o <<Dash, 1, 10, Dash, 2>>      \* c3-tid-sid-ab-1a-2
+              [] b = "ts3"   -> <<Lo, 1, Eq, 2, Up, Comma, Lo, 2, Eq, 3, 12, Comma, 10, 3, Eq, 4, Lo>>   \* g1=2G,g2=3c,a3=4g
+              [] b = "tsws"  -> <<Lo, 1, Eq, 2, Ows, Comma, Ows, Lo, 2, Eq, 3>>    \* g1=2 , g2=3
+\* (constants: TLC renders each form once)
+TBaseTab == [b \in AllTailBases |-> TBase(b)]
+\* two more bytes than the form has: the full value followed by one / two more bytes is a member too
+TExtTab == [b \in AllTailBases |-> TBaseTab[b] \o (IF HdrOf(b) = "ts" THEN <<Comma, Lo>> ELSE <<Dash, 1>>)]
+TExt(b) == TExtTab[b]
+\* the well-formed traceparent next to which tracestate values are explored
+TpFix == TBaseTab["v00"]
+SeqsUpTo(S, n) == UNION {[1..k -> S] : k \in 0..n}
+\* prefix of length n of form b, position n - p + 1 replaced by token x (p = 0: the plain prefix)
+TailMember(b, n, p, x) ==
+  LET pre == SubSeq(TExt(b), 1, n) IN
+  [h |-> HdrOf(b), b |-> b, cut |-> n, pos |-> p, tok |-> x,
+   v |-> IF p = 0 THEN pre ELSE [pre EXCEPT ![n - p + 1] = x]]
+ShortMember(k, w) == [h |-> k, b |-> "short", cut |-> Len(w), pos |-> 0, tok |-> 0, v |-> w]
+
+\* --- tracestate: what the statement promises ("... and trace state") is promised for a list of simple
+\* members key=value (key: lower-case letter, then lower-case letters / digits; value: letters / digits;
+\* no white space, no empty member, token-distinct keys, <= 32 members): exactly these entries, in order.
+\* Any other tracestate bytes: the trace state of the result is left open (its grammar belongs to C14) -
+\* but the traceparent still decides alone whether a context is extracted.
+IsLc(t) == t \in 10..15 \/ t = Lo
+IsDg(t) == t \in 0..9
+IsUc(t) == t \in 26..31 \/ t = Up
+KeyOK(k) == k # <<>> /\ IsLc(k[1]) /\ \A i \in 1..Len(k) : IsLc(k[i]) \/ IsDg(k[i])
+ValOK(w) == w # <<>> /\ \A i \in 1..Len(w) : IsLc(w[i]) \/ IsDg(w[i]) \/ IsUc(w[i])
+Kth(S, k) == CHOOSE x \in S : Cardinality({y \in S : y < x}) = k - 1
+\* the pieces of s between the Commas, as index ranges a..b (b = a - 1: empty piece)
+Members(s) == LET B == {0, Len(s) + 1} \cup {i \in 1..Len(s) : s[i] = Comma} IN
+  [k \in 1..(Cardinality(B) - 1) |-> [a |-> Kth(B, k) + 1, b |-> Kth(B, k + 1) - 1]]
+EqAt(s, m) == {i \in (m.a)..(m.b) : s[i] = Eq}
+MemberOK(s, m) == /\ Cardinality(EqAt(s, m)) = 1
+                  /\ LET e == CHOOSE i \in EqAt(s, m) : TRUE IN
+                       KeyOK(SubSeq(s, m.a, e - 1)) /\ ValOK(SubSeq(s, e + 1, m.b))
+KeyOf(s, m) == SubSeq(s, m.a, (CHOOSE i \in EqAt(s, m) : TRUE) - 1)
+TsSimple(s) == \/ s = <<>>
+               \/ LET ms == Members(s) IN
+                    /\ Len(ms) <= 32
+                    /\ \A k \in 1..Len(ms) : MemberOK(s, ms[k])
+                    /\ \A j, k \in 1..Len(ms) : j # k => KeyOf(s, ms[j]) # KeyOf(s, ms[k])
+\* the expected entries as index ranges into the value (key ka..kb, value va..vb)
+TsEntries(s) == IF s = <<>> THEN <<>> ELSE
+  LET ms == Members(s) IN
+  [k \in 1..Len(ms) |-> LET e == CHOOSE i \in EqAt(s, ms[k]) : TRUE IN
+                          [ka |-> ms[k].a, kb |-> e - 1, va |-> e + 1, vb |-> ms[k].b]]
+TsOutcome(s) == IF TsSimple(s) THEN [k |-> "exact", e |-> TsEntries(s)] ELSE [k |-> "any", e |-> <<>>]
+NoTs == [k |-> "exact", e |-> <<>>]       \* no tracestate header: an empty trace state
+
+\* The swept header is PRESENT (an empty value is handed over as an empty value).
+TailOutcome(t) ==
+  LET r == Parse(IF t.h = "tp" THEN t.v ELSE TpFix) IN
+  [o |-> r.o, tid |-> r.tid, sid |-> r.sid, flags |-> r.flags, ts |-> IF t.h = "tp" THEN NoTs ELSE TsOutcome(t.v)]
+
+InitTail == /\ phase = "tail" /\ sc = NoSC /\ car = EmptyCar /\ res = Rej /\ devUsed = {}
+            /\ \/ \E b \in TailBases : \E n \in 0..Len(TExt(b)) :
+                    \/ tl = TailMember(b, n, 0, 0)
+                    \/ \E p \in 1..TailPos : \E x \in TailTok : p <= n /\ tl = TailMember(b, n, p, x)
+               \/ \E k \in ShortKinds : \E w \in SeqsUpTo(TailTok, ShortLen) : tl = ShortMember(k, w)
+TailExtract == /\ phase = "tail" /\ phase' = "tdone"
+               /\ res' = TailOutcome(tl)      \* (the whole outcome: ids and expected trace-state entries too)
+               /\ UNCHANGED <<sc, car, devUsed, tl>>
+
+Next == \/ Inject \/ ExtractRT \/ Extract \/ TailExtract
+        \/ MutP \/ MutLead \/ MutTrail \/ MutVer \/ MutTid \/ MutSid \/ MutFl \/ MutTail \/ MutSt \/ MutCs \/ MutTs
+Spec == (Init \/ InitTail) /\ [][Next]_vars
+
+\* what the statement says about such values, clause by clause
+TDone == phase = "tdone"
+Core(s) == TrimR(TrimL(s))
+\* a context is only ever promised for lower-case hex digits and '-', with non-zero ids and a version other than ff
+TailAcceptDocumented ==
+  (TDone /\ tl.h = "tp" /\ res.o = "accept") =>
+     LET o == res IN
+     /\ Len(o.tid) = 32 /\ Len(o.sid) = 16 /\ NonZero(o.tid) /\ NonZero(o.sid)
+     /\ \A i \in 1..Len(tl.v) : tl.v[i] \in (0..15) \cup {Dash}
+     /\ ~(tl.v[1] = 15 /\ tl.v[2] = 15)
+     /\ res.flags = Val(tl.v[54]) * 16 + Val(tl.v[55])
+\* "only for headers of that shape": a value with fewer than 55 bytes (white space not counted) never
+\* denotes a context, version 00 takes exactly 55, a longer one goes on with '-'
+TailTruncatedRejected ==
+  (TDone /\ tl.h = "tp" /\ res.o # "reject") =>
+     LET c == Core(tl.v) IN
+     /\ Len(c) >= 55 /\ c[3] = Dash /\ c[36] = Dash /\ c[53] = Dash
+     /\ (c[1] = 0 /\ c[2] = 0) => Len(c) = 55
+     /\ Len(c) > 55 => c[56] = Dash
+     /\ \A i \in (1..55) \ {3, 36, 53} : IsHex(c[i])
+\* an empty traceparent is an absent one; an empty tracestate is an empty trace state
+TailEmptyIsAbsent ==
+  (TDone /\ tl.v = <<>>) =>
+     IF tl.h = "tp" THEN res.o = "reject" ELSE res.o = "accept" /\ res.ts = NoTs
+\* the un-truncated well-formed forms are accepted with their ids and flags (anchors the family to the
+\* class-level partition: they render WellFormed members); version 00 + one more byte (not white space) is rejected, a higher
+\* version followed by '-' accepted
+TailAnchored ==
+  /\ (TDone /\ tl.h = "tp" /\ tl.b \in AllTailBases /\ tl.pos = 0 /\ tl.cut = Len(TBaseTab[tl.b])) =>
+        LET o == res IN
+        /\ res.o = "accept" /\ res.flags = TFlags /\ o.tid = TFieldT /\ o.sid = TFieldS /\ o.ts = NoTs
+  /\ (TDone /\ tl.b = "v00" /\ Len(Core(tl.v)) > 55) => res.o = "reject"
+  /\ (TDone /\ tl.b = "hi" /\ tl.cut = 56 /\ tl.pos = 0) => res.o = "accept"
+\* tracestate bytes never change the decision about the traceparent, nor its ids / flags
+TailTsNeverBlocks ==
+  (TDone /\ tl.h = "ts") =>
+     LET o == res IN
+     /\ res.o = "accept" /\ res.flags = TFlags /\ o.tid = TFieldT /\ o.sid = TFieldS
+     /\ WellFormed([DefTP EXCEPT !.fb = TFlags]) /\ Parse(Render([DefTP EXCEPT !.fb = TFlags])).o = "accept"
+\* entries are only demanded for letters / digits / '=' / ','; the complete simple forms demand theirs
+TailTsExactOnlySimple ==
+  /\ (TDone /\ tl.h = "ts" /\ res.ts.k = "exact") =>
+        /\ \A i \in 1..Len(tl.v) : IsLc(tl.v[i]) \/ IsDg(tl.v[i]) \/ IsUc(tl.v[i]) \/ tl.v[i] \in {Eq, Comma}
+        /\ tl.v # <<>> => tl.v[Len(tl.v)] \notin {Eq, Comma} /\ tl.v[1] \notin {Eq, Comma}
+  /\ (TDone /\ tl.b = "ts3" /\ tl.pos = 0 /\ tl.cut \in {5, 11, 17}) =>
+        res.ts.k = "exact" /\ Len(res.ts.e) = (tl.cut + 1) \div 6
+  /\ (TDone /\ tl.h = "tp") => res.ts = NoTs
+TailTypeOK == /\ TailBases \subseteq AllTailBases /\ TailPos \in 0..3 /\ ShortKinds \subseteq {"tp", "ts"}
+              /\ (phase \in {"tail", "tdone"}) = (tl # NoTail)
+              /\ tl # NoTail => /\ tl.h \in {"tp", "ts"} /\ Len(tl.v) = tl.cut /\ tl.pos <= tl.cut
+                                /\ \A i \in 1..Len(tl.v) : tl.v[i] \in TailTok
+
 (* ---------------- behaviour export ----------------------------------------- *)
 \* one line per (abstract input, expected outcome); where a deviation applies both expectations
 EmitAll ==
@@ -306,4 +463,12 @@ EmitAll ==
                                dev |-> IF InjExp(sc, AllDevs) # InjExp(sc, {}) THEN DevF8 ELSE "",
                                injDev |-> InjExp(sc, AllDevs), extDev |-> Outcome(InjectCar(sc, AllDevs))])>>)
   /\ phase = "xdone" => PrintT(<<"BEH", ToJson([k |-> "x", car |-> car, exp |-> res])>>)
+  \* rest: what the full form goes on with behind the cut (the bytes a truncated VIEW is followed by)
+  /\ phase = "tdone" =>
+       PrintT(<<"BEH", ToJson([k |-> "t",
+                               tl |-> [h |-> tl.h, b |-> tl.b, cut |-> tl.cut, pos |-> tl.pos, tok |-> tl.tok],
+                               tp |-> IF tl.h = "tp" THEN tl.v ELSE TpFix,
+                               ts |-> IF tl.h = "ts" THEN [p |-> TRUE, v |-> tl.v] ELSE [p |-> FALSE, v |-> <<>>],
+                               rest |-> IF tl.b \in AllTailBases THEN SubSeq(TExt(tl.b), tl.cut + 1, Len(TBaseTab[tl.b])) ELSE <<>>,
+                               exp |-> res])>>)
 =============================================================================
